@@ -17,8 +17,10 @@ package main
 //              distance of a dropped vertex to the segment of the simplified polyline that covers it
 //   c20snapc level x y z                 level 0..30 or "new" (= NewCellIDSnapper())
 //            = q radius
-//   c20snapi e x y z                     = q radius klat klng site   (klat, klng = round(LatLngFromPoint(q) in degrees * 10^e),
-//                                          site = PointFromLatLng(klat / 10^e deg, klng / 10^e deg): the nearest grid site, from integers)
+//   c20snapi e x y z                     = q radius inLat inLng klat klng outLat outLng site
+//                                          (in = LatLngFromPoint(p); k = Round(in.Degrees()*10^e); out = LatLngFromDegrees(k*(1/10^e));
+//                                          site = PointFromLatLng(out): the stages of SnapPoint restated through the public API)
+//   c20scaled tol                        = the tessellator's scaledTolerance (squared chord, hook)
 //   c20rad   L|E n                       = minSnapRadiusFor…(n)  …ForMaxSnapRadius(that radius)  and the same just below
 //                                          (L: one ulp below; E: 2^-30 relative below, see c20rad)
 //
@@ -100,8 +102,9 @@ func c20devProjected(proj s2.Projection, a, b s2.Point, chain []r2.Point) (float
 }
 
 // c20distToCurve: distance from q to the curve t -> Unproject(Interpolate(t, pa, pb)), t in [lo,hi] (clamped to
-// [0,1]); coarse scan + golden-section refinement, so the value is >= the true minimum and within ~1e-9
-// relative of the local minimum.
+// [0,1]): 48-point scan, then golden-section refinement of the two best local minima of the scan (the curve can
+// come close to itself near a pole).  The value is >= the true minimum (every evaluated point lies on the curve)
+// and within ~1e-9 relative of the local minimum that contains the best sample.
 func c20distToCurve(proj s2.Projection, q s2.Point, pa, pb r2.Point, lo, hi float64) float64 {
 	if lo < 0 {
 		lo = 0
@@ -112,66 +115,74 @@ func c20distToCurve(proj s2.Projection, q s2.Point, pa, pb r2.Point, lo, hi floa
 	f := func(t float64) float64 {
 		return float64(s2.ChordAngleBetweenPoints(q, proj.Unproject(proj.Interpolate(t, pa, pb))))
 	}
-	const m = 8
-	best, bk := math.Inf(1), 0
+	const m = 48
+	var v [m + 1]float64
 	for k := 0; k <= m; k++ {
-		if v := f(lo + (hi-lo)*float64(k)/m); v < best {
-			best, bk = v, k
+		v[k] = f(lo + (hi-lo)*float64(k)/m)
+	}
+	b1, b2 := -1, -1 // indices of the two smallest local minima
+	for k := 0; k <= m; k++ {
+		if (k > 0 && v[k-1] < v[k]) || (k < m && v[k+1] < v[k]) {
+			continue
+		}
+		if b1 < 0 || v[k] < v[b1] {
+			b1, b2 = k, b1
+		} else if b2 < 0 || v[k] < v[b2] {
+			b2 = k
 		}
 	}
-	l := lo + (hi-lo)*float64(bk-1)/m
-	h := lo + (hi-lo)*float64(bk+1)/m
-	if l < lo {
-		l = lo
-	}
-	if h > hi {
-		h = hi
-	}
-	const g = 0.6180339887498949
-	x1 := h - g*(h-l)
-	x2 := l + g*(h-l)
-	f1, f2 := f(x1), f(x2)
-	for it := 0; it < 40; it++ {
-		if f1 < f2 {
-			h, x2, f2 = x2, x1, f1
-			x1 = h - g*(h-l)
-			f1 = f(x1)
-		} else {
-			l, x1, f1 = x1, x2, f2
-			x2 = l + g*(h-l)
-			f2 = f(x2)
+	best := math.Inf(1)
+	for _, bk := range []int{b1, b2} {
+		if bk < 0 {
+			continue
 		}
-		if f1 < best {
-			best = f1
+		if v[bk] < best {
+			best = v[bk]
 		}
-		if f2 < best {
-			best = f2
+		l := lo + (hi-lo)*float64(bk-1)/m
+		h := lo + (hi-lo)*float64(bk+1)/m
+		if l < lo {
+			l = lo
+		}
+		if h > hi {
+			h = hi
+		}
+		const g = 0.6180339887498949
+		x1 := h - g*(h-l)
+		x2 := l + g*(h-l)
+		f1, f2 := f(x1), f(x2)
+		for it := 0; it < 40; it++ {
+			if f1 < f2 {
+				h, x2, f2 = x2, x1, f1
+				x1 = h - g*(h-l)
+				f1 = f(x1)
+			} else {
+				l, x1, f1 = x1, x2, f2
+				x2 = l + g*(h-l)
+				f2 = f(x2)
+			}
+			if f1 < best {
+				best = f1
+			}
+			if f2 < best {
+				best = f2
+			}
 		}
 	}
 	return float64(s1.ChordAngle(best).Angle())
 }
 
 // c20devUnprojected: largest distance from a point of the geodesic output chain to the planar input edge
-// (pa, pb wrapped) mapped onto the sphere.
+// (pa, pb wrapped) mapped onto the sphere.  The nearest curve point is searched over the WHOLE edge t in [0,1]
+// (48-point scan + golden section); a bracket derived from projecting the chain vertices would be wrong when a
+// vertex projects exactly half a period away from pa.
 func c20devUnprojected(proj s2.Projection, pa, pb r2.Point, chain []s2.Point) (float64, int) {
 	nseg := len(chain) - 1
 	if nseg < 1 {
 		return 0, 0
 	}
 	pbw := proj.WrapDestination(pa, pb)
-	d := pbw.Sub(pa)
-	den := d.Dot(d)
-	// parameter of every chain vertex on the input edge
-	ts := make([]float64, len(chain))
-	for i, v := range chain {
-		if den == 0 {
-			ts[i] = 0
-			continue
-		}
-		pv := proj.WrapDestination(pa, proj.Project(v))
-		ts[i] = pv.Sub(pa).Dot(d) / den
-	}
-	n := c20sampleBudget / 60 / nseg
+	n := c20sampleBudget / 140 / nseg
 	if n > 64 {
 		n = 64
 	}
@@ -180,12 +191,10 @@ func c20devUnprojected(proj s2.Projection, pa, pb r2.Point, chain []s2.Point) (f
 	}
 	worst, wi := 0.0, 0
 	for i := 0; i < nseg; i++ {
-		lo, hi := math.Min(ts[i], ts[i+1]), math.Max(ts[i], ts[i+1])
-		pad := 0.5*(hi-lo) + 1e-9
 		for k := 0; k <= n; k++ {
 			t := float64(k) / float64(n)
 			q := s2.Interpolate(t, chain[i], chain[i+1])
-			dd := c20distToCurve(proj, q, pa, pbw, lo-pad, hi+pad)
+			dd := c20distToCurve(proj, q, pa, pbw, 0, 1)
 			if dd > worst {
 				worst, wi = dd, i
 			}
@@ -305,15 +314,27 @@ func c20snapc(args []string) []string {
 
 func c20snapi(args []string) []string {
 	p := s2.Point{Vector: r3.Vector{X: pF(args[1]), Y: pF(args[2]), Z: pF(args[3])}}
-	sf := s2.NewIntLatLngSnapper(pI(args[0]))
+	e := pI(args[0])
+	sf := s2.NewIntLatLngSnapper(e)
 	q := sf.SnapPoint(p)
-	// nearest site of the 10^-e degree grid to q, recomputed from INTEGER coordinates with Go's libm
-	ll := s2.LatLngFromPoint(q)
-	pw := math.Pow10(pI(args[0]))
-	klat := math.Round(ll.Lat.Degrees() * pw)
-	klng := math.Round(ll.Lng.Degrees() * pw)
-	site := s2.PointFromLatLng(s2.LatLngFromDegrees(klat/pw, klng/pw))
-	return []string{c20ptTok(q), fx(float64(sf.SnapRadius())), i64s(int64(klat)), i64s(int64(klng)), c20ptTok(site)}
+	// The same computation restated through the public API, so that its stages can be compared with the model:
+	// in = LatLngFromPoint(p) (libm), k = Round(in.Degrees() * 10^e), out = LatLngFromDegrees(k * (1 / 10^e)),
+	// site = PointFromLatLng(out) (libm).  The oracle checks the arithmetic in -> (k, out) bit-exactly and q against site.
+	in := s2.LatLngFromPoint(p)
+	from := math.Pow10(e)
+	to := 1 / from
+	klat := math.Round(in.Lat.Degrees() * from)
+	klng := math.Round(in.Lng.Degrees() * from)
+	out := s2.LatLngFromDegrees(klat*to, klng*to)
+	site := s2.PointFromLatLng(out)
+	return []string{c20ptTok(q), fx(float64(sf.SnapRadius())), fx(float64(in.Lat)), fx(float64(in.Lng)),
+		i64s(int64(klat)), i64s(int64(klng)), fx(float64(out.Lat)), fx(float64(out.Lng)), c20ptTok(site)}
+}
+
+// c20scaled: the tessellator's acceptance threshold (hook), a squared chord length.
+func c20scaled(args []string) []string {
+	te := s2.NewEdgeTessellator(s2.NewPlateCarreeProjection(180), s1.Angle(pF(args[0])))
+	return []string{fx(float64(s2.VerifTessScaledTolerance(te)))}
 }
 
 func c20rad(args []string) []string {
@@ -443,7 +464,9 @@ func c20edge(g *G, kind string, tol float64) (s2.Point, s2.Point) {
 	return a, b
 }
 
-func c20genTess(g *G, n int) {
+// c20genTess: coarse = only tolerances in [0.1, 1] rad (the regime where the estimator's error model is weakest;
+// chains are short, so these cases are cheap).
+func c20genTess(g *G, n int, coarse bool) {
 	for i := 0; i < n; i++ {
 		kind := "P"
 		if g.rng.Bool() {
@@ -451,6 +474,12 @@ func c20genTess(g *G, n int) {
 		}
 		scale := c20scale(g)
 		tol := c20tol(g)
+		if coarse {
+			tol = c20logU(g, -1, 0)
+			if g.rng.Intn(6) == 0 {
+				tol = 1
+			}
+		}
 		a, b := c20edge(g, kind, tol)
 		if a.Dot(b.Vector) < -0.9998 { // nearly antipodal: midpoint ill-defined
 			continue
@@ -747,6 +776,12 @@ func c20genSnap(g *G, n int) {
 		g.emit("c20snapi", is(e), fx(p.X), fx(p.Y), fx(p.Z))
 	}
 	if g.shardK == 0 {
+		for _, t := range []float64{0, 1e-14, 1e-13, 1.0000000000000002e-13, 1e-9, 1e-3, 0.1, 1, math.Pi} {
+			g.emit("c20scaled", fx(t))
+		}
+		for i := 0; i < 40; i++ {
+			g.emit("c20scaled", fx(c20tol(g)))
+		}
 		for l := 0; l <= 30; l++ {
 			g.emit("c20rad", "L", is(l))
 		}
@@ -764,15 +799,18 @@ func init() {
 	replayers["c20snapc"] = c20snapc
 	replayers["c20snapi"] = c20snapi
 	replayers["c20rad"] = c20rad
+	replayers["c20scaled"] = c20scaled
 	// n = number of tessellator cases; the cheaper ops are scaled up
 	generators["c20"] = func(g *G) {
-		c20genTess(g, g.n)
+		c20genTess(g, g.n, false)
+		c20genTess(g, g.n, true)
 		c20genProjRT(g, 2*g.n)
 		c20genWrap(g, 2*g.n)
 		c20genSubs(g, 2*g.n)
 		c20genSnap(g, 2*g.n)
 	}
-	generators["c20tess"] = func(g *G) { c20genTess(g, g.n) }
+	generators["c20tess"] = func(g *G) { c20genTess(g, g.n, false) }
+	generators["c20coarse"] = func(g *G) { c20genTess(g, g.n, true) }
 	generators["c20subs"] = func(g *G) { c20genSubs(g, g.n) }
 	generators["c20snap"] = func(g *G) { c20genSnap(g, g.n) }
 	generators["c20projrt"] = func(g *G) { c20genProjRT(g, g.n); c20genWrap(g, g.n) }
